@@ -1,6 +1,124 @@
 (* C14 property theorems: statements + `exact lemma` only. *)
-From CJ Require Import Common.Base C14.Model C14.Proofs.
+From CJ Require Import Common.Base C14.Model C14.ConcModel C14.Proofs C14.SurjProofs C14.ConcProofs C14.Main C14.Vectors.
+From Coq Require Import Permutation.
+
+(* a successful selection is an address of the requested family inside a subnet
+   configured for the generation, and carries that subnet's group flag *)
+Theorem C14_select_contained :
+  forall seed cfg lv f p, select seed (Some cfg) lv f = Ok p ->
+    exists g c, In g cfg /\ In c (group_cidrs g) /\ contains c f (be_to_N (p_bytes p)) /\
+                p_rand_port p = rand_port g.
+Proof. exact select_contained. Qed.
+Print Assumptions C14_select_contained.
+
+Theorem C14_select_wellformed :
+  forall seed cfg lv f p, select seed cfg lv f = Ok p -> blen (p_bytes p) * 8 = bits f.
+Proof. exact select_wellformed. Qed.
+Print Assumptions C14_select_wellformed.
+
+Theorem C14_never_panics : forall seed cfg lv f, select seed cfg lv f <> Panic.
+Proof. exact select_never_panics. Qed.
+Print Assumptions C14_never_panics.
 
 Theorem C14_unknown_generation : forall seed lv f, exists e, select seed None lv f = Err e.
-Proof. exact unknown_generation. Qed.
+Proof. exact select_unknown_generation. Qed.
 Print Assumptions C14_unknown_generation.
+
+(* the client entry point phantoms.SelectPhantom, weighted or not, with any transform *)
+Theorem C14_select_phantom_sound :
+  forall seed cfg tr w,
+    select_phantom seed cfg tr w <> Panic /\
+    forall p, select_phantom seed cfg tr w = Ok p ->
+      exists g c f, In g cfg /\ In c (group_cidrs g) /\ contains c f (be_to_N (p_bytes p)) /\
+                    (forall f', tr = Some f' -> f = f') /\
+                    blen (p_bytes p) * 8 = bits f /\ p_rand_port p = rand_port g.
+Proof. exact select_phantom_sound. Qed.
+Print Assumptions C14_select_phantom_sound.
+
+(* none of this depends on SHA-256, on Go's math/rand source or on how sort.Slice
+   orders equal weights: any PRF, any source, any permutation *)
+Theorem C14_selection_sound_parametric :
+  forall (hm : bytes -> bytes -> bytes) (src : Type) (src_seed : Z -> src) (src_int63 : src -> N * src)
+         (sorter : list group -> list group), (forall l, Permutation (sorter l) l) ->
+  forall seed cfg lv f,
+    select_gen hm src src_seed src_int63 sorter seed cfg lv f <> Panic /\
+    (cfg = None -> exists e, select_gen hm src src_seed src_int63 sorter seed cfg lv f = Err e) /\
+    forall c ph, cfg = Some c -> select_gen hm src src_seed src_int63 sorter seed cfg lv f = Ok ph ->
+      exists g n, In g c /\ In n (group_cidrs g) /\ contains n f (be_to_N (p_bytes ph)) /\
+                  blen (p_bytes ph) * 8 = bits f /\ p_rand_port ph = rand_port g.
+Proof. exact selection_sound_parametric. Qed.
+Print Assumptions C14_selection_sound_parametric.
+
+(* offset surjectivity: every address of every listed (well-formed, not v4-mapped)
+   network is the result for some id below the total ... *)
+Theorem C14_offset_surjective :
+  forall subnets c rp a,
+    In (c, rp) subnets -> wf_cidr c -> v4mapped c = false -> contains c (eff_fam c) a ->
+    exists id ph, id < snd (id_nets subnets 0) /\
+                  locate_hkdf (fst (id_nets subnets 0)) id = Ok ph /\
+                  be_to_N (p_bytes ph) = a /\ p_rand_port ph = rp /\ blen (p_bytes ph) * 8 = bits (eff_fam c).
+Proof. exact every_address_reachable. Qed.
+Print Assumptions C14_offset_surjective.
+
+(* ... and the rejection sampler returns every id below its bound for some stream *)
+Theorem C14_sampler_surjective :
+  forall max v, v < max -> exists s, rand_int list_read 1 s (Z.of_N max) = ROk v [].
+Proof. exact rand_int_surjective. Qed.
+Print Assumptions C14_sampler_surjective.
+
+(* whatever the reader, the sampler's value is below the bound *)
+Theorem C14_sampler_in_range :
+  forall (St : Type) (read : St -> N -> option (bytes * St)) fuel s max v s',
+    rand_int read fuel s max = ROk v s' -> (Z.of_N v < max)%Z.
+Proof. exact LibProofs.rand_int_lt. Qed.
+Print Assumptions C14_sampler_in_range.
+
+(* purity under concurrency: n selection calls on one station, any initial state
+   of the global math/rand generator and of each call's own, any schedule: a
+   call that has returned has returned the value of the pure function *)
+Theorem C14_concurrent_eq_serial :
+  forall g0 calls sched i l seed cfg lv f r,
+    nth_error calls i = Some (l, (seed, cfg, lv, f)) ->
+    result_of (run alfg_seed alfg_int63 (conc_init false g0 calls) sched) i = Some r ->
+    r = select seed cfg lv f.
+Proof. exact concurrent_eq_serial. Qed.
+Print Assumptions C14_concurrent_eq_serial.
+
+(* run on its own, the code that used the shared generator (shared = true, before
+   /repo 77e5dfb) and the current code (shared = false) return the same value,
+   whatever state the generators are in: the fix preserves what clients compute *)
+Theorem C14_serial_old_code_eq_new :
+  forall shared g l seed cfg lv f,
+    exec alfg_seed alfg_int63 g l (p_select alfg alfg_seed alfg_int63 isort_groups hmac_sha256 shared seed cfg lv f)
+    = select seed cfg lv f.
+Proof. exact serial_old_code_eq_new. Qed.
+Print Assumptions C14_serial_old_code_eq_new.
+
+Theorem C14_every_call_finishes :
+  forall shared seed cfg lv f g l, exists n,
+    match snd (snd (own_steps alfg alfg_seed alfg_int63 _ n
+          (g, (l, p_select alfg alfg_seed alfg_int63 isort_groups hmac_sha256 shared seed cfg lv f)))) with
+    | Ret _ => True | _ => False end.
+Proof. exact every_call_finishes. Qed.
+Print Assumptions C14_every_call_finishes.
+
+(* the concrete primitives against their published vectors *)
+Theorem C14_sha256_vectors :
+  sha256 [] = unhex "e3b0c44298fc1c149afbf4c8996fb92427ae41e4649b934ca495991b7852b855" /\
+  sha256 (unhex "616263") = unhex "ba7816bf8f01cfea414140de5dae2223b00361a396177a9cb410ff61f20015ad" /\
+  sha256 (unhex "6162636462636465636465666465666765666768666768696768696a68696a6b696a6b6c6a6b6c6d6b6c6d6e6c6d6e6f6d6e6f706e6f7071")
+    = unhex "248d6a61d20638b8e5c026930c3e6039a33ce45964ff2167f6ecedd419db06c1" /\
+  sha256 (repeat 97 55) = unhex "9f4390f8d30c2dd92ec9f095b65e2b9ae9b0a925a5258e241c9f1e910f734318" /\
+  sha256 (repeat 97 56) = unhex "b35439a4ac6f0948b6d6f9e3c6af0f5f590ce20f1bde7090ef7970686ec6738a" /\
+  sha256 (repeat 97 64) = unhex "ffe054fe7ae0cb6dc65c3af9b61d5209f439851db43d0ba5997337df154668eb".
+Proof. exact sha256_vectors. Qed.
+Print Assumptions C14_sha256_vectors.
+
+Theorem C14_hmac_hkdf_vectors :
+  hmac_sha256 (unhex "4a656665") (unhex "7768617420646f2079612077616e7420666f72206e6f7468696e673f")
+    = unhex "5bdcc146bf60754e6a042426089575c75a003f089d2739839dec58b964ec3843" /\
+  hkdf_sha256 (repeat 11 22) (Some (unhex "000102030405060708090a0b0c")) (unhex "f0f1f2f3f4f5f6f7f8f9") 42
+    = Some (unhex "3cb25f25faacd57a90434f64d0362f2a2d2d0a90cf1a5a4c5db02d56ecc4c5bf34007208d5b887185865") /\
+  hkdf_sha256 [1; 2; 3] None [4] 8161 = None.
+Proof. exact (conj (proj1 (proj2 hmac_sha256_vectors)) (conj (proj1 hkdf_sha256_vectors) (proj2 (proj2 hkdf_sha256_vectors)))). Qed.
+Print Assumptions C14_hmac_hkdf_vectors.
